@@ -28,6 +28,9 @@ PAYLOADS = {
     'ret': [['RETURN', 7]],
     'iret': [['INSTANT'], ['RETURN', 8]],
     'raise': [['D', 1], ['RAISE', 'KeyError', 'v']],
+    # owns a scope whose child fails (in the time step of the cancel) / raises while the cancellation closes it
+    'scopefail': [['SCOPE', 'vs', [['DO', 'g', [['D', 1], ['RAISE', 'KeyError', 'g']]], ['D', 2]]], ['INSTANT']],
+    'scopefinraise': [['SCOPE', 'vs', [['DO', 'g', [['FINALLY', [['D', 3]], [['RAISE', 'ValueError', 'cleanup']]]]], ['D', 2]]], ['INSTANT']],
     # fails with an exception object that is falsy
     'raisefalsy': [['D', 1], ['RAISE', 'Empty', 'v']],
     # wakes up and then only awaits tasks that are finished already (each such await is still a suspension point)
@@ -185,6 +188,12 @@ def lifecycle(ctx, snaps, program, faults):
             if own_end and met_suspension and ended > idx and program['_payload'] == 'awaitdone':
                 msgs.append('cancelled at %r before it resumed, it then passed the suspension point(s) %r and still finished '
                             'on its own' % (t_c, [r[4] for r in log[idx:ended] if r[0] == 'start' and r[1] == 'v' and r[4] not in silent]))
+            # (nor if the activation in which it ended was the delivery of a cancellation: then the cancellation is what
+            # must leave the payload, whatever else happened to its children in that time step)
+            resumed_by_cancel = ended is not None and ctx.trace[ctx.log_act[ended] - 1][3] == 'CancelTask'
+            if own_end and resumed_by_cancel and ended > idx and program['_payload'] not in ('graceful',):
+                msgs.append('the cancellation was delivered to the task at %r but it ended with %r instead' % (
+                    log[ended][3], log[ended][4]))
             if own_end and log[ended][3] == t_c and ended > idx or (own_end and ended < idx):
                 if final == 'CANCELLED':
                     msgs.append('the task completed on its own at %r but is reported cancelled' % t_c)
